@@ -209,6 +209,10 @@ func generate(p *Program, cs *ContractSet, prop string, only string) *genOutput 
 		fr.File = shortFile(p.Prog.Fset.Position(fn.Pos()).Filename)
 		for mi, mode := range modes {
 			ctx := newCtx(p, cs, fn.Pkg.Pkg, mode)
+			ctx.opaque = map[string]bool{}
+			for _, o := range con.Opaque {
+				ctx.opaque[o] = true
+			}
 			g := newGen(ctx, fn, con)
 			func() {
 				defer func() {
@@ -323,6 +327,52 @@ func generate(p *Program, cs *ContractSet, prop string, only string) *genOutput 
 					out.obls = append(out.obls, o)
 				}
 				if lm.Induct == "" {
+					// skolemise a universal goal and instantiate the used lemmas at its variables
+					if q, ok := lm.Clause.E.(*EQuant); ok && q.Forall {
+						senv := env.child()
+						vt := map[string]string{}
+						for _, v := range q.Vars {
+							t := ctx.resolveType(v.Type, sp.Pkg)
+							cn := ctx.freshConst("lv."+v.Name, ctx.sortOf(t))
+							senv.vars[v.Name] = &SV{S: cn, T: t}
+							vt[v.Name] = v.Type
+							if v.Type != "int" && v.Type != "mathint" {
+								if rf := ctx.rangeFact(cn, t); rf != "" {
+									g.facts = append(g.facts, rf)
+								}
+							}
+						}
+						for _, u := range lm.Uses {
+							for _, other := range cs.Lemmas {
+								oq, isQ := other.Clause.E.(*EQuant)
+								if other.Name != u || !isQ || !oq.Forall {
+									continue
+								}
+								match := true
+								for _, ov := range oq.Vars {
+									if vt[ov.Name] != ov.Type {
+										match = false
+									}
+								}
+								if match {
+									g.facts = append(g.facts, senv.eval(oq.Body).S)
+								}
+							}
+						}
+						for _, li := range lm.Instances {
+							for _, other := range cs.Lemmas {
+								oq, isQ := other.Clause.E.(*EQuant)
+								if other.Name != li.Name || !isQ || !oq.Forall || len(oq.Vars) != 1 || oq.Vars[0].Name != li.Var {
+									continue
+								}
+								ienv := senv.child()
+								ienv.vars[li.Var] = senv.eval(li.E)
+								g.facts = append(g.facts, ienv.eval(oq.Body).S)
+							}
+						}
+						mk("", senv.eval(q.Body).S, "lemma: ")
+						return
+					}
 					mk("", env.eval(lm.Clause.E).S, "lemma: ")
 					return
 				}
